@@ -125,7 +125,20 @@ class MessageManager(interfaces.TokenInterface, interfaces.MessageManager):
             # it might be timeout-related
             self._process_request(message)
         elif message.code.is_response() and message.mtype in (CON, NON, ACK):
-            success = self._process_response(message)
+            try:
+                success = self._process_response(message)
+            except Exception:
+                # Only the handlers of the request the response was matched
+                # to can raise here (an application's callback failing). The
+                # response has arrived all the same, and the peer must not
+                # be left retransmitting it.
+                if message.mtype is CON:
+                    self._send_empty_ack(
+                        message.remote,
+                        message.mid,
+                        reason="acknowledging incoming response",
+                    )
+                raise
             if success:
                 if message.mtype is CON:
                     self._send_empty_ack(
